@@ -442,7 +442,9 @@ Definition type_depth_with_attr (d : dump) (t : N) (w : attr_write) : Z :=
 Definition has_byte (c : N) (s : list N) : bool := existsb (N.eqb c) s.
 
 (* hwloc_calc_parse_level after the copy into typestring *)
-Definition resolve_dump (d : dump) (ts : list N) : res (option (lvl Z)) :=
+(* [out]: the level names an OUTPUT (-N / -I / -H), where the memory-side cache level is usable (the loops of
+   hwloc_calc_output work on any depth); as a location it is outside the model *)
+Definition resolve_dump_gen (out : bool) (d : dump) (ts : list N) : res (option (lvl Z)) :=
   let* r := type_sscanf_cur ts (Some SIZEOF_ATTR_UNION) in
   match r with
   | Some (t, w) =>
@@ -450,7 +452,7 @@ Definition resolve_dump (d : dump) (ts : list N) : res (option (lvl Z)) :=
       if (depth =? HWLOC_TYPE_DEPTH_UNKNOWN)%Z || (depth =? HWLOC_TYPE_DEPTH_MULTIPLE)%Z then Ok None
       else if has_byte C_LBR ts then Ok (Some LvUnmodelled)                  (* filters *)
       else if (0 <=? depth)%Z || (depth =? HWLOC_TYPE_DEPTH_NUMANODE)%Z then Ok (Some (LvNormal depth))
-      else if (depth =? HWLOC_TYPE_DEPTH_MEMCACHE)%Z then Ok (Some LvUnmodelled)
+      else if (depth =? HWLOC_TYPE_DEPTH_MEMCACHE)%Z then Ok (Some (if out then LvNormal depth else LvUnmodelled))
       else Ok (Some LvSpecial)
   | None =>
       let* h := cmp_eq (strncasecmp ts 0 (cstr "HBM") 0 4) in
@@ -466,6 +468,8 @@ Definition resolve_dump (d : dump) (ts : list N) : res (option (lvl Z)) :=
         else if (0 <=? depth)%Z || (depth =? HWLOC_TYPE_DEPTH_NUMANODE)%Z then Ok (Some (LvNormal depth))
         else Ok (Some LvSpecial)
   end.
+
+Definition resolve_dump := resolve_dump_gen false.
 
 Definition root_obj (d : dump) : option dobj := get d 0.
 Definition d_topo_sets (d : dump) : sets :=
@@ -710,7 +714,7 @@ Section Main.
       then Ok LoUnmodelled
       else if 21 <=? len a then Ok LoFail
       else
-        let* r := resolve_dump d (a ++ [0]) in
+        let* r := resolve_dump_gen true d (a ++ [0]) in
         match r with
         | None => Ok LoFail
         | Some (LvNormal z) => Ok (LoLevel z)
@@ -733,6 +737,8 @@ Section Main.
       let* l := opt_level (Some (p ++ [0])) in
       match l with
       | LoLevel z =>
+        (* "unsupported (non-normal) --hierarchical type": goto out *)
+        if (z <? 0)%Z && negb (z =? HWLOC_TYPE_DEPTH_NUMANODE)%Z then Ok (Some None) else
         let* r := hier_levels tl in
         match r with
         | Some (Some zs) => Ok (Some (Some (z :: zs)))
